@@ -421,10 +421,28 @@ func concreteTime(t value, what string) time.Time {
 func timeUnix(fr *frame, a []value) value {
 	ns := timeNS(a[0])
 	if isSym(ns) {
-		// Unix seconds of a symbolic instant: fresh value tied to ns by
-		// ns = 1e9*sec + r, 0 ≤ r < 1e9 is avoided (64-bit mul by 1e9 stalls
-		// solvers); the code under test only stores / compares this value.
-		panic(engineError{"Time.Unix on a symbolic instant"})
+		// Unix seconds of a symbolic instant: fresh sec, rem with
+		// ns = 1e9*sec + rem, 0 ≤ rem < 1e9, 0 ≤ sec < 2^33 (instants of the
+		// clock model are positive and < 2^62). Bit-blasting back ends stall
+		// on the multiplication; the integer back end (cvc5-int) decides it.
+		i := fr.i
+		ts := i.ts()
+		key := i.term(ns).id
+		if v, ok := i.world.unixCache[key]; ok {
+			return v
+		}
+		sec := symv{ts.Var(fmt.Sprintf("unixsec!%d", key), bvSort(64)), types.Int64}
+		rem := ts.Var(fmt.Sprintf("unixrem!%d", key), bvSort(64))
+		i.path.addPC(ts.BVCmp("bvsle", ts.BV(0, 64), sec.t))
+		i.path.addPC(ts.BVCmp("bvslt", sec.t, ts.BV(1<<33, 64)))
+		i.path.addPC(ts.BVCmp("bvsle", ts.BV(0, 64), rem))
+		i.path.addPC(ts.BVCmp("bvslt", rem, ts.BV(1_000_000_000, 64)))
+		i.path.addPC(ts.Eq(i.term(ns), ts.BVBin("bvadd", ts.BVBin("bvmul", sec.t, ts.BV(1_000_000_000, 64)), rem)))
+		if i.world.unixCache == nil {
+			i.world.unixCache = map[int]value{}
+		}
+		i.world.unixCache[key] = sec
+		return sec
 	}
 	n := ns.(int64)
 	if n == 0 {
